@@ -9,10 +9,17 @@
      2. clause 1  unknown option            -> NoSuchOption
      3. clause 2  value given to a flag     -> CannotParse
      4. clause 3  required value left out   -> CannotParse
-     5. clause 5  too many positionals      -> CannotParse
+        facts about the augmented format (its arguments), invariant of the scratch arguments
+     5. clause 5  too many positionals      -> CannotParse  (in the loop / after re-alignment / option-free lines)
      6. clause 4  required argument missing -> CannotParse
      7. clause 6  value does not convert    -> ValueError
-     8. lenient counterparts, non-vacuity examples *)
+     8. lenient counterparts
+     9. the options of the augmented format are the listed options of the format; clauses 1-3 restated
+        with hypotheses on the option list of f
+    10. error kinds / lenient totality / clause 6 under opts_ok_w, which formats with multi-valued
+        options satisfy (opts_ok excludes them); observations
+   Every clause theorem has an Example that instantiates all its hypotheses on the concrete formats
+   ex_f / ex_g / ex_h (non-vacuity). *)
 From Coq Require Import Lia String Ascii.
 From Clikit Require Import Base.Prelude Base.Res Model.Conv Model.Flags Model.Format Model.Parser
      Proofs.StrLemmas Proofs.FlagsLemmas Proofs.FormatLemmas Proofs.ParserLemmas.
@@ -577,6 +584,13 @@ Qed.
 
 Open Scope string_scope.
 (* non-vacuity: every hypothesis holds for these lines *)
+Example ex_strict_error_at : parse ex_f false (T ["server"; "--"; "--nope"; "a"; "b"; "c"; "d"]) = Err CannotParse.
+Proof.
+  (* everything after "--" is positional, "--nope" too: the loop gets as far as "c", the fifth positional *)
+  eapply (strict_error_at ex_f ex_f' ex_far ex_fcn _ false _ (S_ "c") (T ["d"]) CannotParse ex_f_aug).
+  - repeat (eapply reach_next; [vm_compute; reflexivity|]). apply reach_here.
+  - vm_compute. reflexivity.
+Qed.
 Example ex_unknown_long : parse ex_f false (T ["server"; "x"; "--opt"; "--nope"; "y"]) = Err NoSuchOption.
 Proof.
   apply (unknown_long_option ex_f ex_f' ex_far ex_fcn (T ["server"; "x"; "--opt"]) (scan_st ex_f' (T ["server"; "x"; "--opt"]))
@@ -2110,6 +2124,18 @@ Proof.
   apply (short_option_value_missing_listed ex_f ex_f' ex_far ex_fcn _ _ ex_f_aug Hs eq_refl
            (mkopt "num" (Some "n") 520 VNone) (S_ "vq") 110%N (T [""; "7"])); [vm_compute; tauto|reflexivity..].
 Qed.
+Example ex_unknown_long_eq_listed : parse ex_f false (T ["-v"; "--num"; "3"; "--nope=1"; "--also"]) = Err NoSuchOption.
+Proof.
+  assert (scans ex_f' (T ["-v"; "--num"; "3"]) (scan_st ex_f' (T ["-v"; "--num"; "3"]))) as Hs by (vm_compute; reflexivity).
+  apply (unknown_long_option_eq_listed ex_f ex_f' ex_far ex_fcn _ _ ex_f_aug Hs eq_refl (S_ "nope") (S_ "1") (T ["--also"]));
+    vm_compute; reflexivity.
+Qed.
+Example ex_option_value_empty_listed : parse ex_f false (T ["x"; "--num="; "3"]) = Err CannotParse.
+Proof.
+  assert (scans ex_f' (T ["x"]) (scan_st ex_f' (T ["x"]))) as Hs by (vm_compute; reflexivity).
+  apply (option_value_empty_listed ex_f ex_f' ex_far ex_fcn _ _ ex_f_aug Hs eq_refl
+           (mkopt "num" (Some "n") 520 VNone) (S_ "num") (T ["3"])); [vm_compute; tauto|reflexivity..].
+Qed.
 Close Scope string_scope.
 
 (* ---- the lenient counterpart of each clause: the same line does not end in that parse error ---- *)
@@ -2393,7 +2419,17 @@ Proof.
     split; [vm_compute; reflexivity|]. split; [vm_compute; reflexivity|]. eexists. vm_compute. reflexivity.
 Qed.
 
-(* ---- observations (not defects of the model w.r.t. the property as read; see the report) ---- *)
+Example ex_lenient_w : parse ex_h true (T ["x"; "2"; "y"; "--nope"; "-t"; "--tag"]) <> Err NoSuchOption /\
+                       parse ex_h true (T ["x"; "2"; "y"; "--nope"; "-t"; "--tag"]) <> Err CannotParse.
+Proof. exact (lenient_no_parse_error_w ex_h ex_h' ex_har ex_hcn _ ex_h_aug ex_h_opts_ok_w). Qed.
+Example ex_error_kinds_w : parse ex_h false (T ["x"; "--tag"]) = Err CannotParse /\ allowed CannotParse.
+Proof.
+  assert (parse ex_h false (T ["x"; "--tag"]) = Err CannotParse) as H by (vm_compute; reflexivity).
+  split; [exact H|]. exact (proj1 (parse_error_kinds_w ex_h false _ ex_h' ex_har ex_hcn ex_h_aug ex_h_opts_ok_w _ H)).
+Qed.
+
+(* ---- observations: behaviour of the parser (model = implementation on these lines, C02 tie) that the
+   property text does not forbid but that may surprise ---- *)
 (* a value that does not convert is harmless when the same option is given again: the last one wins *)
 Example overwritten_bad_value_accepted : exists r, parse ex_f false (T ["x"; "--num=abc"; "--num=3"]) = Ok r.
 Proof. vm_compute. eexists. reflexivity. Qed.
